@@ -406,7 +406,7 @@ func (a *analyzer) analyzeFunc(fi *core.FuncInfo, entryHeld bool) *FuncLocks {
 					if sel, ok := v.Fun.(*ast.SelectorExpr); ok {
 						// cond.Wait()
 						if sel.Sel.Name == "Wait" {
-							if tv, ok := info.Types[sel.X]; ok && tv.Type.String() == "*sync.Cond" {
+							if tv, ok := info.Types[sel.X]; ok && strings.HasSuffix(tv.Type.String(), "sync.Cond") {
 								ws := WaitSite{Pos: v.Pos(), Held: st.held}
 								if f := forOf[v]; f != nil {
 									ws.InFor = true
